@@ -54,10 +54,11 @@ UNIT = {
         (AST, ['enum PostfixOperator']),
         (AST, ['enum BinaryOperator']),
         (AST, ['enum Associativity'], {'vis': 'pub'}),
-        (AST, ['impl Operator', 'fn as_prefix'], {'vis': 'pub'}),
-        (AST, ['impl Operator', 'fn as_postfix'], {'vis': 'pub'}),
-        (AST, ['impl Operator', 'fn as_binary'], {'vis': 'pub'}),
-        (AST, ['impl Operator', 'fn precedence'], {'vis': 'pub'}),
+        ('@file', 'prelude_tables.rs'),
+        (AST, ['impl Operator', 'fn as_prefix'], {'vis': 'pub', 'ret': 'r', 'ensures': ['r == c_prefix(self)']}),
+        (AST, ['impl Operator', 'fn as_postfix'], {'vis': 'pub', 'ret': 'r', 'ensures': ['r == c_postfix(self)']}),
+        (AST, ['impl Operator', 'fn as_binary'], {'vis': 'pub', 'ret': 'r', 'ensures': ['r == c_binary(self)']}),
+        (AST, ['impl Operator', 'fn precedence'], {'vis': 'pub', 'ret': 'p', 'ensures': ['p == c_level(self)']}),
         ('yash-arith/src/env.rs', ['trait Env'], ENV_SPEC),
         (EVAL, ['enum EvalError']),
         (EVAL, ['struct Error']),
